@@ -17,3 +17,4 @@ CONSTANTS
   BIGSET = FALSE
   SAMPLE = 211
   STREAMLEN = 5
+  TWOCOLOURS = FALSE
